@@ -8,7 +8,7 @@ PROP = 'C14'
 LEAN_TARGETS = ['Props.C14']
 REQUIRED_THEOREMS = ['Props.C14.linear_is_addmm', 'Props.C14.cross_entropy_is_nll_log_softmax', 'Props.C14.mean_is_sum_div_count',
                      'Props.C14.flatten_is_reshape', 'Props.C14.sub_is_add_neg', 'Props.C14.div_is_mul_pow', 'Props.C14.stack_is_concat_unsqueeze',
-                     'Props.C14.unbind_inverts_stack', 'Props.C14.movedim_adjacent_is_transpose']
+                     'Props.C14.unbind_inverts_stack', 'Props.C14.movedim_adjacent_is_transpose', 'Props.C14.conv2d_is_unfold_matmul', 'Props.C14.avgpool2d_is_unfold_mean', 'Props.C14.maxpool2d_is_unfold_max']
 RULE = ('one program per identity and operand set, both sides built over the same leaves: cross-entropy | NLL of log_softmax; '
         'BCE-with-logits | BCE of sigmoid (moderate logits); log_softmax | log of softmax; linear | x @ W.T + b; addmm | a + b @ c; '
         'conv2d | unfold, matmul, reshape; max/avg pool | unfold, max/mean; a - b | a + (-b); a / b | a * b**-1; mean | sum / count; '
@@ -53,15 +53,18 @@ def finish(b, lhs, rhs, rng, tol=1e-9):
     io = tprog.run_program(lines)
     sh = tuple(common.parse_ints(io[-1].split('|')[0])) if '|' in io[-1] else ()
     g = gen_dag.rand_data(rng, sh, -2, 2)
-    sides = {}
-    for side, root in (('l', lhs), ('r', rhs)):
-        for lf in b.leaves: lines.append(f't zero {lf}')
-        lines.append(f"t bw {root} {show_ints(sh)} {show_floats(g)}")
-        idx = []
-        for lf in b.leaves:
-            lines.append(f't grad {lf}'); idx.append(len(lines) - 1)
-        sides[side] = idx
-    pairs += list(zip(sides['l'], sides['r']))
+    # each side is differentiated TWICE (leaves zeroed in between): whatever a fused kernel saved for its backward must survive
+    # the first sweep, so the second sweep has to reproduce the same gradients on both sides
+    for rep in range(2):
+        sides = {}
+        for side, root in (('l', lhs), ('r', rhs)):
+            for lf in b.leaves: lines.append(f't zero {lf}')
+            lines.append(f"t bw {root} {show_ints(sh)} {show_floats(g)}")
+            idx = []
+            for lf in b.leaves:
+                lines.append(f't grad {lf}'); idx.append(len(lines) - 1)
+            sides[side] = idx
+        pairs += list(zip(sides['l'], sides['r']))
     return {'lines': lines, 'pairs': pairs, 'tol': tol}
 
 
